@@ -1,5 +1,6 @@
 import Req.Lemmas.C01Body
 import Req.Lemmas.C01BodyH3
+import Req.Lemmas.H1Parse
 /-!
 C01 — request fidelity of the HTTP/2 request body: what `clientStream.writeRequestBody` +
 `awaitFlowControl` put into DATA frames, for EVERY body, every behaviour of the body reader
@@ -58,6 +59,13 @@ theorem h2_within_window (cfg : Cfg) (r : Reader) (avails : List Nat) :
   obtain ⟨_, h2, _⟩ := loop_spec cfg (fuelFor r)
     (remain0 cfg.cl) r avails
   exact h2
+
+/-- **h2_windows_used_in_order**: the windows recorded with the flow-controlled frames are looks of
+the given schedule, in order, each used for at most one frame (a sublist of `avails`): together with
+`h2_within_window`, every DATA frame fits the window that was really available when it was cut. -/
+theorem h2_windows_used_in_order (cfg : Cfg) (r : Reader) (avails : List Nat) :
+    (dataAvails (writeBody cfg r avails).1).Sublist avails :=
+  loop_avails cfg (fuelFor r) (remain0 cfg.cl) r avails
 
 /-- **h2_long_reader_never_completes**: a reader that yields MORE bytes than the declared content
 length never completes the request: the outcome is an error (or the writer is still blocked) and
@@ -183,5 +191,31 @@ example :
     Req.H3.BodyWrite.originRead (some 6) [0, 2, 1, 2, 0, 3, 3, 4, 5] true = none := by decide
 
 end H3
+
+/-! ## the three protocols deliver the same body -/
+
+section Cross
+open Req.H1 Req.H1.Origin Req.H3.BodyWrite
+
+/-- **cross_protocol_body**: the same body bytes, read from an honest reader in ANY sizes, are
+delivered identically by all three protocols — HTTP/1.1 chunked (any read split; `h1_fidelity` adds
+the Content-Length form), HTTP/2 (any window schedule that lets the write complete, any frame size,
+truthful or absent content length) and HTTP/3: each protocol's independent origin reads exactly
+`r.data`. -/
+theorem cross_protocol_body (r : Reader) (reads : List Nat) (rest : Bytes)
+    (cfg : Cfg) (avails : List Nat) (buf3 : Nat) (hbuf3 : buf3 < 2 ^ 62)
+    (hcl : cfg.cl = none ∨ cfg.cl = some r.data.length)
+    (h2done : (writeBody cfg r avails).2 = .done) (h3done : (sendBody buf3 r).2 = .closed) :
+    decodeBody .chunked (chunkedBody r.data reads ++ rest) = some (r.data, rest) ∧
+    Req.H2.BodyWrite.originRead cfg.cl (frames (writeBody cfg r avails).1) [] = some r.data ∧
+    ∃ s, wire (sendBody buf3 r).1 = some s ∧ Req.H3.BodyWrite.originRead cfg.cl s true = some r.data := by
+  have hm : clMatches cfg.cl r.data.length = true := by
+    rcases hcl with h | h <;> simp [h, clMatches]
+  refine ⟨decodeBody_chunked r.data reads rest, ?_, ?_⟩
+  · rw [h2_origin_reads_exact_body cfg r avails h2done, hm]; rfl
+  · obtain ⟨_, s, hs, ho⟩ := h3_body_exact buf3 hbuf3 cfg.cl r h3done
+    exact ⟨s, hs, by rw [ho, hm]; rfl⟩
+
+end Cross
 
 end Req.Props.C01Body
